@@ -153,6 +153,7 @@ func (g *CallGraph) resolve(fn *ssa.Function, ci ssa.CallInstruction) {
 		if iface == nil {
 			return
 		}
+		chaSeen := map[*ssa.Function]bool{}
 		for _, T := range g.repoTypes {
 			if !types.Implements(T, iface) {
 				continue
@@ -162,13 +163,9 @@ func (g *CallGraph) resolve(fn *ssa.Function, ci ssa.CallInstruction) {
 			if sel == nil {
 				continue
 			}
-			// only count the type that declares the method once (value type when receiver is value)
-			if _, isPtr := T.(*types.Pointer); isPtr {
-				if vs := g.P.SSA.MethodSets.MethodSet(T.(*types.Pointer).Elem()); vs.Lookup(c.Method.Pkg(), c.Method.Name()) != nil {
-					continue
-				}
-			}
-			if m := g.P.SSA.MethodValue(sel); m != nil {
+			// the value type and its pointer type usually resolve to the same declared method: count it once
+			if m := g.P.SSA.MethodValue(sel); m != nil && !chaSeen[unwrapBound(g.P, m)] {
+				chaSeen[unwrapBound(g.P, m)] = true
 				g.add(&Edge{Caller: fn, Site: ci, Callee: m, Kind: "cha"})
 			}
 		}
